@@ -7,6 +7,7 @@
 //  (3) census of writable non-TLS global objects defined by SoPlex code in the executable, compared with an allowlist.
 #define VX_OWN_VERIF_POINT 1
 #include "vx_spx.hpp"
+#include <unistd.h>
 #include <thread>
 #include <mutex>
 #include <condition_variable>
@@ -99,6 +100,7 @@ struct SchedBuf : public std::streambuf
 // ---------------------------------------------------------------------------------------------------------
 // workloads (each thread: create, set parameters, load, solve, query, destroy its own object)
 // ---------------------------------------------------------------------------------------------------------
+static std::string g_scratch = "/var/tmp";     // scratch directory of this run (files of the file round-trip workload)
 static Rational rq(long a, long b) { return Rational(a) / b; }
 static void load_third_lp(SoPlex& spx, int variant, bool badlyScaled = false)
 {
@@ -119,9 +121,9 @@ static void load_third_lp(SoPlex& spx, int variant, bool badlyScaled = false)
    spx.addRowRational(LPRowRational(-inf, r2, Rational(rq(5, 7) * rowf)));
    spx.addRowRational(LPRowRational(-inf, r3, rq(11, 13)));
 }
-static const char* WNAME[] = {"exact-pure-boosting", "construct-destroy-only", "exact-default", "float-default", "float-geo8-steep-nopresolve", "float-leastsq-devex", "exact-boosting-variant", "float-geo1-variant", "float-coarse-epsilon", "float-precise-nearly-feasible"
+static const char* WNAME[] = {"exact-pure-boosting", "construct-destroy-only", "exact-default", "float-default", "float-geo8-steep-nopresolve", "float-leastsq-devex", "exact-boosting-variant", "float-geo1-variant", "float-coarse-epsilon", "float-precise-nearly-feasible", "float-file-roundtrip"
                               };
-static const int NW = 10;     // 8 "float-coarse-epsilon", 9 "float-precise-nearly-feasible" (appended to WNAME below)
+static const int NW = 11;     // 8 "float-coarse-epsilon", 9 "float-precise-nearly-feasible", 10 "float-file-roundtrip"
 
 static std::string run_workload(int w, std::ostream* log)
 {
@@ -155,6 +157,7 @@ static std::string run_workload(int w, std::ostream* log)
       if(w == 4) { spx->setIntParam(SoPlex::SCALER, SoPlex::SCALER_GEO8); spx->setIntParam(SoPlex::PRICER, SoPlex::PRICER_STEEP); spx->setIntParam(SoPlex::SIMPLIFIER, SoPlex::SIMPLIFIER_OFF); }
       if(w == 5) { spx->setIntParam(SoPlex::SCALER, SoPlex::SCALER_LEASTSQ); spx->setIntParam(SoPlex::PRICER, SoPlex::PRICER_DEVEX); }
       if(w == 7) { spx->setIntParam(SoPlex::SCALER, SoPlex::SCALER_GEO1); spx->setIntParam(SoPlex::SIMPLIFIER, SoPlex::SIMPLIFIER_OFF); }
+      if(w == 10) spx->setIntParam(SoPlex::SIMPLIFIER, SoPlex::SIMPLIFIER_OFF);
    }
    if(w == 8)
    {
@@ -220,6 +223,42 @@ static std::string run_workload(int w, std::ostream* log)
       dg << ",B";
       for(int i = 0; i < 3; ++i) dg << (int)rs[i];
       for(int j = 0; j < 3; ++j) dg << (int)cs[j];
+   }
+   if(w == 10 && spx->hasBasis())
+   {
+      // file round trip inside the thread: LP file and basis file (default names, generated by the writers) written by this thread's object, read by a second object of the
+      // same thread, solved from the restored basis; every thread uses its own file names
+      static std::atomic<int> fileNo(0);
+      std::string base = g_scratch + "/c18-" + std::to_string((long)getpid()) + "-" + std::to_string(fileNo.fetch_add(1));
+      std::string flp = base + ".lp", fbas = base + ".bas";
+      sched_point("api:writeFile");
+      bool w1 = spx->writeFileReal(flp.c_str(), nullptr, nullptr, nullptr, true);
+      sched_point("api:writeBasisFile");
+      bool w2 = spx->writeBasisFile(fbas.c_str(), nullptr, nullptr, false);
+      sched_point("api:create2");
+      SoPlex* s2 = new SoPlex();
+      s2->setIntParam(SoPlex::VERBOSITY, SoPlex::VERBOSITY_ERROR);
+      sched_point("api:readFile");
+      bool r1 = s2->readFile(flp.c_str(), nullptr, nullptr, nullptr);
+      sched_point("api:readBasisFile");
+      bool r2 = r1 && s2->readBasisFile(fbas.c_str(), nullptr, nullptr);
+      sched_point("api:optimize2");
+      if(r1) s2->optimize();
+      char b[64];
+      snprintf(b, sizeof b, ",files%d%d%d%d,st%d,it%d,obj%a", (int)w1, (int)w2, (int)r1, (int)r2, r1 ? (int)s2->status() : -99, r1 ? s2->numIterations() : -1, r1 ? (double)s2->objValueReal() : 0.0);
+      dg << b;
+      if(r1 && s2->hasBasis())
+      {
+         SPxSolver::VarStatus rs[4], cs[4];
+         s2->getBasis(rs, cs);
+         dg << ",B2";
+         for(int i = 0; i < 3; ++i) dg << (int)rs[i];
+         for(int j = 0; j < 3; ++j) dg << (int)cs[j];
+      }
+      sched_point("api:destroy2");
+      delete s2;
+      unlink(flp.c_str());
+      unlink(fbas.c_str());
    }
    sched_point("api:destroy");
    delete spx;
@@ -417,6 +456,7 @@ int main(int argc, char** argv)
 {
    Args args = parse_args(argc, argv);
    args.prop = "C18";
+   if(!args.outdir.empty()) g_scratch = args.outdir;
    if(!args.replay.empty())
    {
       std::ifstream in(args.replay);
@@ -459,7 +499,7 @@ int main(int argc, char** argv)
    rep.phase("free-running workloads under ThreadSanitizer", 1, [&](uint64_t, int, Ctx & c) -> uint64_t
    {
       int reps = thorough ? 20 : 6;
-      std::vector<std::vector<int>> mixes = {{0, 1}, {0, 0}, {0, 6, 2, 3}, {3, 4, 5, 3}, {4, 7, 4, 7}, {9, 8, 9, 8}, {0, 1, 2, 3, 4, 5, 6, 7, 8, 9, 2, 3, 4, 5, 6, 7}};
+      std::vector<std::vector<int>> mixes = {{0, 1}, {0, 0}, {0, 6, 2, 3}, {3, 4, 5, 3}, {4, 7, 4, 7}, {9, 8, 9, 8}, {10, 10, 10, 10}, {0, 1, 2, 3, 4, 5, 6, 7, 8, 9, 10, 10, 4, 5, 6, 7}};
       for(auto& mix : mixes)
          for(int r = 0; r < reps; ++r)
          {
@@ -491,7 +531,8 @@ int main(int argc, char** argv)
    jobs.push_back({{3, 4}, thorough ? 2 : 1, 200000});   // two floating-point solves (different scaler / pricer / simplifier)
    jobs.push_back({{5, 0}, 1, 200000});
    jobs.push_back({{4, 7}, thorough ? 2 : 1, 200000});   // two geometric scalers at work at the same time
-   jobs.push_back({{9, 8}, thorough ? 2 : 1, 200000});   // a precise solve next to an object that was given coarse tolerances (the precise one is referenced first)
+   jobs.push_back({{9, 8}, thorough ? 2 : 1, 200000});
+   jobs.push_back({{10, 10}, 1, 200000});                // two threads writing and reading LP and basis files (own file names) at the same time   // a precise solve next to an object that was given coarse tolerances (the precise one is referenced first)
    if(thorough) { jobs.push_back({{0, 1, 6}, 1, 200000}); jobs.push_back({{0, 1}, 3, 400000}); }
    double perJob = (rep.deadline - now_s() - 20) / jobs.size();
    rep.phase("all schedules within the preemption bound", jobs.size(), [&](uint64_t idx, int, Ctx & c) -> uint64_t
